@@ -305,3 +305,32 @@ def _check_wrapper(ctx, r, w, rule_id):
                 stack.extend(d for d, k, _ in x.succ if k in NORMAL_KINDS)
             r.check(not reaches_func, f"{w.short}: a failed acquire does not fall through to func()", key_of(w, "acquire failure falls through"), w.loc(a.stmt),
                     "when lock acquisition fails the wrapper continues and calls func(...) without the lock")
+
+
+@rule(P, "C10.6", "T9", "every entry takes the same lock file; identity and emptiness tests are what they say", min_obligations=6)
+def c10_6(ctx, r):
+    from ..lib import _single_return
+
+    glf = ctx.fn("Cluster.get_lock_file", "C10.6")
+    rx = _single_return(glf)
+    r.check(rx is not None and ctx.src(rx).replace(" ", "") == "os.path.join(path,Cluster.LOCK_FILE)", "lock file = <path>/<LOCK_FILE>", key_of(glf, "lock file"), glf.loc(), f"get_lock_file returns `{ctx.src(rx) if rx is not None else None}`")
+    init = ctx.fn("Cluster.__init__", "C10.6")
+    ok = any(isinstance(n, ast.Assign) and ctx.src(n.targets[0]) == "self._lock_file" and ctx.src(n.value) == "self.get_lock_file(self._config.path)" for n in iter_own(init.node))
+    r.check(ok, "instance methods lock get_lock_file(config.path)", key_of(init, "instance lock file"), init.loc(), "Cluster.__init__ derives its lock file differently from the static entry: two processes use different locks",
+            "At most one process at a time is promoted")
+    st = ctx.fn("Cluster.do_action_under_lock", "C10.6")
+    ok = any(isinstance(n, ast.Assign) and ctx.src(n.targets[0]) == "lock_file" and ctx.src(n.value) == "Cluster.get_lock_file(path)" for n in iter_own(st.node))
+    fw = [s for s in ctx.cg.sites_in(st) if s.calls_short(ctx.ix, "Cluster._do_action_under_lock_internal")]
+    r.check(ok and len(fw) == 1 and ctx.src(fw[0].node.args[0]) == "lock_file", "the static entry locks get_lock_file(path)", key_of(st, "static lock file"), st.loc(), "do_action_under_lock locks another file")
+    iw = ctx.fn("Cluster._do_action_under_lock", "C10.6")
+    fw = [s for s in ctx.cg.sites_in(iw) if s.calls_short(ctx.ix, "Cluster._do_action_under_lock_internal")]
+    r.check(len(fw) == 1 and ctx.src(fw[0].node.args[0]) == "self._lock_file", "the instance entry locks self._lock_file", key_of(iw, "instance forward"), iw.loc(), "_do_action_under_lock locks another file")
+    w = ctx.fn("Cluster._do_action_under_lock_internal", "C10.6")
+    lk = [n for n in iter_own(w.node) if isinstance(n, ast.Call) and ctx.src(n.func).endswith("SoftFileLock")]
+    r.check(len(lk) == 1 and ctx.src(lk[0].args[0]) == "lock_file", "the wrapper locks the file it was given", key_of(w, "lock object"), w.loc(), "the wrapper constructs its lock on another file")
+    hs = ctx.fn("Cluster.has_submitter", "C10.6")
+    r.check(ctx.src(_single_return(hs)) == "self._config.submitter is not None", "has_submitter = submitter is not None", key_of(hs, "has_submitter"), hs.loc(), f"has_submitter is `{ctx.src(_single_return(hs))}`", "promotion fails while another holds the role")
+    am = ctx.fn("Cluster.am_i_submitter", "C10.6")
+    r.check(ctx.src(_single_return(am)).replace(" ", "") in ("self._config.submitter==self._hostname", "self._hostname==self._config.submitter"), "am_i_submitter = submitter == own hostname", key_of(am, "am_i_submitter"), am.loc(), f"am_i_submitter is `{ctx.src(_single_return(am))}`")
+    ok = any(isinstance(n, ast.Assign) and ctx.src(n.targets[0]) == "self._hostname" and ctx.src(n.value) == "socket.gethostname()" for n in iter_own(init.node))
+    r.check(ok, "hostname = socket.gethostname()", key_of(init, "hostname"), init.loc(), "Cluster._hostname is not socket.gethostname()")
